@@ -118,10 +118,12 @@ class PandasData(BaseIOSpec):
         self._init_spec()
 
     def _can_update_other(self, other, sheet):
-        if other is self or sheet != self._sheet:
+        if other is self:
             return True
+        elif sheet is None or self._sheet is None:
+            return False    # As in _can_add_other
         else:
-            return False
+            return sheet != self._sheet
 
     def _on_update(self, sheet):
         self._sheet = sheet
